@@ -296,7 +296,9 @@ class Run:
             except Exception as e:  # noqa
                 code, msg = exc_code(e), f"{type(e).__name__}: {e}"[:160]
                 del e
-            gc.collect()
+            if op[0] == "drop" or code != 0:
+                gc.collect()     # everything else dies by reference counting (a lingering monitor would show up
+                                 # as a live, unlisted monitor in the snapshot and fail the comparison)
             self.scan()
             out.append([code, self.snapshot(), msg])
         return out
